@@ -1,10 +1,10 @@
-"""Run every translator (T1 funfit, T2 dataset tables, T3 vector arithmetic, T4 rfa loops, T5 search scans, T6 Weaver effect order, T7 loader protocol, T8 array helpers, T9 Weaver step content, T10 process functions, T11 match control flow, T12 RFA parameters, T13 IntervalArray) against /repo's working tree."""
+"""Run every translator (T1 funfit, T2 dataset tables, T3 vector arithmetic, T4 rfa loops, T5 search scans, T6 Weaver effect order, T7 loader protocol, T8 array helpers, T9 Weaver step content, T10 process functions, T11 match control flow, T12 RFA parameters, T13 IntervalArray, T14 Weaver accessors / factories / value slicing, T15 smoothing glue and sampling-function plumbing) against /repo's working tree."""
 import importlib
 import sys
 
 def main():
     for t in ("t1_funfit", "t2_tables", "t3_vector", "t4_rfaloops", "t5_search", "t6_effects", "t7_loader", "t8_arrays",
-              "t9_weaver", "t10_process", "t11_match", "t12_rfaparams", "t13_interval"):
+              "t9_weaver", "t10_process", "t11_match", "t12_rfaparams", "t13_interval", "t14_weaverio", "t15_smoothglue"):
         try:
             mod = importlib.import_module(f"harness.{t}")
         except ModuleNotFoundError:
